@@ -76,6 +76,12 @@ GENERIC_ITEMS = [  # compile-valid generic declarations per derive family (deriv
     ("MulAssign", "#[derive(derive_more::MulAssign, derive_more::DivAssign, derive_more::RemAssign, derive_more::ShrAssign, derive_more::ShlAssign)] pub struct G<T, U>(pub T, pub U);"),
     ("Not", "#[derive(derive_more::Not, derive_more::Neg)] pub struct G<T, U = T>(pub T, pub U);"),
     ("Not", "#[derive(derive_more::Not)] pub enum G<T> { A(T), B { x: T }, U }"),
+    # field types in which an EXPRESSION (a constant's path as the array length) follows the type parameter
+    ("AsRef", "#[derive(derive_more::AsRef, derive_more::AsMut)] pub struct G<T>(#[as_ref([T])] #[as_mut([T])] pub [T; crate::LEN]);"),
+    ("AsRef", "#[derive(derive_more::AsRef)] pub struct G<T> { #[as_ref([T], [T; crate::LEN])] pub a: [T; crate::LEN], pub b: u8 }"),
+    ("Debug", "#[derive(derive_more::Debug)] pub struct G<T>(pub [T; crate::LEN], pub [u8; crate::LEN]);"),
+    ("Display", "#[derive(derive_more::Display)] #[display(\"{}\", _0[0])] pub struct G<T>(pub [T; crate::LEN]) where T: core::fmt::Display;"),
+    ("Error", "#[derive(derive_more::Debug, derive_more::Display, derive_more::Error)] #[display(\"e\")] pub struct G<T>(#[error(source)] pub Box<T>, pub [u8; crate::LEN]);"),
     # parameters DECLARED with the operator's trait (no `Output = ..`): the impl still needs `T: Op<Output = T>` next to it
     ("Add", "#[derive(derive_more::Add, derive_more::Sub)] pub struct G<T: core::ops::Add + core::ops::Sub>(pub T, pub T);"),
     ("Add", "#[derive(derive_more::BitAnd, derive_more::BitOr)] pub struct G<T> where T: core::ops::BitAnd, T: core::ops::BitOr { pub a: T }"),
@@ -402,7 +408,7 @@ def run(chk, tier, seed, replay):
         variants = [v for v in variants if json.load(open(replay))["key"].startswith(v[0])]
     snips = [(k, d) for k, d in variants]
     log(f"[C01] {len(reqs)} headers checked in-process, {len(snips)} declarations compiled under deny(warnings)")
-    prelude = "pub static K: i32 = 5;\npub trait Tr { type Assoc; }\n"
+    prelude = "pub static K: i32 = 5;\npub const LEN: usize = 2;\npub trait Tr { type Assoc; }\n"
     per, br = vlib.verdict_crate("c01_deny", snips, prelude=prelude, crate_attrs="#![deny(warnings)]\n#![allow(dead_code, non_camel_case_types)]",
                                  check_only=True)
     failing = [k for k, _ in snips if [x for x in per[k] if x["level"] in ("error", "warning")]]
